@@ -81,4 +81,19 @@ theorem opt_readback (hrt : ∀ es, de (ser es) = es) (budget : Nat) (es : List 
 -- non-vacuity (test): three entries, leaf size 2, identity codec on a toy serializer
 example : (chunks 2 [⟨1,0,1,1⟩, ⟨2,1,1,1⟩, ⟨3,2,1,1⟩]).length = 2 := by decide
 
+/-- **the growth loop terminates**: for every leaf-size schedule that strictly grows (the code's
+    `leafSize *= 1.2` on a float32 ≥ 4096 does) and every serialiser whose output for a directory of
+    at most one entry fits the budget (one pointer entry is a few bytes), `optimizeDirectories`
+    returns within `len(entries) + 1` iterations — and by `opt_is_result` what it returns is a
+    result of the relation -/
+theorem opt_terminates (budget : Nat) (es : List Entry) (ls0 : Nat) (next : Nat → Nat)
+    (hgrow : ∀ ls, ls < next ls)
+    (hsmall : ∀ l : List Entry, l.length ≤ 1 → (ser l).length ≤ budget) :
+    ∃ b, optimize ser budget es ls0 next (es.length + 1) = some b := by
+  unfold optimize
+  split
+  · exact ⟨_, rfl⟩
+  · exact optimizeLoop_terminates ser budget es next hgrow hsmall (es.length + 1) ls0 (by omega) (by omega)
+
+
 end Pm.C05
